@@ -25,12 +25,22 @@ On(f) == Focus = "all" \/ Focus = f
 
 ObsOK(o) ==
   /\ o.now = now /\ o.n = n
-  /\ On("C13") => \A t \in Ids : o.states[ToString(t)] = st[t]
-  /\ On("C12") => S(o.live) = Alive
+  /\ (On("C13") \/ On("C14")) => \A t \in Ids : ToString(t) \in DOMAIN o.states /\ o.states[ToString(t)] = st[t]
+  /\ (On("C12") \/ On("C14")) => S(o.live) = Alive
   /\ On("C11") => Len(o.spawned) = Len(started) /\ \A k \in DOMAIN started : o.spawned[k] = started[k]
 
+(* C14: requests arriving over client connections.  A well-formed request behaves as the   *)
+(* corresponding scheduler call and its reply tells the truth; whatever else a client does *)
+(* (malformed data, disconnects, unknown ids) leaves the pool untouched.                   *)
 Apply(e) ==
   CASE e.e = "Enqueue" -> Enqueue(S(e.deps), e.limit, S(e.attrs))
+    [] e.e = "ReqEnqueue" -> e.reply = n /\ Enqueue(S(e.deps), e.limit, S(e.attrs))
+    [] e.e = "ReqStates"  -> /\ e.count = n
+                             /\ \A t \in Ids : ToString(t) \in DOMAIN e.reply /\ e.reply[ToString(t)] = st[t]
+                             /\ UNCHANGED vars
+    [] e.e = "ReqCancel"  -> Cancel(e.t)
+    [] e.e = "Bad"        -> UNCHANGED vars
+    [] e.e = "BadEnq"     -> e.reply = n /\ Enqueue({}, 0, S(e.attrs))
     [] e.e = "Exit"    -> ProcExit(e.t, e.rc)
     [] e.e = "Cancel"  -> Cancel(e.t)
     [] e.e = "Tick"    -> Tick
@@ -41,7 +51,8 @@ Consume == /\ Quiescent /\ l <= Len(Events)
            /\ l > 1 => ObsOK(Events[l - 1].obs)
            /\ Apply(Ev) /\ l' = l + 1 /\ tid' = tid
 (* C13: the output of a task that ran to its end is stored completely *)
-LogsOK  == On("C13") => \A t \in Ids : (pc[t] = "done" /\ cause[t] \in {"exit0", "exitN"}) => Batch[tid].logs[ToString(t)] = "ok"
+LogsOK  == On("C13") => \A t \in Ids : (pc[t] = "done" /\ cause[t] \in {"exit0", "exitN"}) =>
+                  (ToString(t) \in DOMAIN Batch[tid].logs /\ Batch[tid].logs[ToString(t)] = "ok")
 Last    == /\ Quiescent /\ l = Len(Events) + 1 /\ ObsOK(Events[Len(Events)].obs) /\ LogsOK
            /\ l' = l + 1 /\ UNCHANGED <<vars, tid>>
 TraceNext == Silent \/ Consume \/ Last
